@@ -104,6 +104,7 @@ def check(ctx):
     tuple_object_probe(ctx)
     limit_shapes_probe(ctx)
     semi_infinite_limit_probe(ctx)
+    round6_probes(ctx)
 
 
 def oracle(ctx):
@@ -428,6 +429,54 @@ def semi_infinite_limit_probe(ctx):
         if got is None or abs(got - sign * fx) > 1e-12 or got2 is None or abs(got2 - sign * dfa) > 1e-10:
             ctx.fail("oracle", "quadgrad:semi-infinite:finite-limit", {"side": side, "integrand": "a exp(-a x^2)", "finite_limit": 0.4, "a": 1.3},
                      {"dy_dx": got, "d2y_dx_da": got2}, {"dy_dx": sign * fx, "d2y_dx_da": sign * dfa})
+
+
+def round6_probes(ctx):
+    """(a) an integrand that returns a differentiable LEAF unchanged (a plateau parameter, a module's level): d/dlevel of the integral is
+    the length of the interval (round-6 seed C13/15: the 'does not depend on any tensor' shortcut tested f.grad_fn is None instead of
+    not f.requires_grad).  (b) a limit that requires grad and whose dtype differs from the integrand's (float32 limit, float64
+    parameters): its Leibniz gradient is there (C13/16: the flag was taken from the dtype-converted copy made under no_grad)"""
+    from xitorch.integrate import quad
+
+    class Plateau(torch.nn.Module):
+        def __init__(self):
+            super().__init__()
+            self.level = torch.nn.Parameter(torch.tensor(1.5, dtype=DT))
+
+        def forward(self, x):
+            return self.level
+    level = torch.tensor(1.5, dtype=DT, requires_grad=True)
+    m = Plateau()
+    for name, run, leaf in (("function returning its parameter", lambda: quad(lambda x, c: c, 0.0, 2.0, params=(level,), n=6), level),
+                            ("module returning its Parameter", lambda: quad(m.forward, 0.0, 2.0, n=6), m.level)):
+        ctx.count(("leaf-valued-integrand", name), nontrivial=True)
+        try:
+            with warnings.catch_warnings():
+                warnings.simplefilter("ignore")
+                y = run()
+                gl, = torch.autograd.grad(y, leaf, allow_unused=True)
+        except Exception as e:
+            ctx.fail("oracle", "quadgrad:leaf-valued-integrand:exception", {"integrand": name}, repr(e)[:200], "a gradient")
+            continue
+        if gl is None or abs(float(gl) - 2.0) > 1e-12 or abs(float(y.detach()) - 3.0) > 1e-12:
+            ctx.fail("oracle", "quadgrad:leaf-valued-integrand", {"integrand": name, "interval": [0.0, 2.0]},
+                     {"value": float(y.detach()), "d_dlevel": None if gl is None else float(gl)}, {"value": 3.0, "d_dlevel": 2.0})
+    a = torch.tensor(1.3, dtype=DT, requires_grad=True)
+    for which in ("lower", "upper"):
+        lim = torch.tensor(0.5, dtype=torch.float32, requires_grad=True)
+        ctx.count(("limit-dtype-differs", which), nontrivial=True)
+        try:
+            with warnings.catch_warnings():
+                warnings.simplefilter("ignore")
+                y = quad(lambda x, c: c * x * x, lim, 2.0, params=(a,), n=6) if which == "lower" else quad(lambda x, c: c * x * x, -1.0, lim, params=(a,), n=6)
+                gl, ga = torch.autograd.grad(y, (lim, a), allow_unused=True)
+        except Exception as e:
+            ctx.fail("oracle", "quadgrad:limit-dtype-differs:exception", {"limit": which}, repr(e)[:200], "gradients")
+            continue
+        want = (-1.0 if which == "lower" else 1.0) * 1.3 * 0.25
+        if gl is None or abs(float(gl) - want) > 1e-6:
+            ctx.fail("oracle", "quadgrad:limit-dtype-differs", {"limit": which, "limit_dtype": "float32", "parameter_dtype": "float64"},
+                     {"d_dlimit": None if gl is None else float(gl)}, {"d_dlimit": want})
 
 
 def search(ctx):
